@@ -75,7 +75,7 @@ struct B : FSM::State {
 	void entryGuard(GuardControl& control) { control.cancelPendingTransition(); (void) control.pendingTransition(); (void) control.currentTransition(); W_P((void) control.pendingTransition().payload();) }
 	void update(FullControl& control) {
 		control.changeTo(ffsm2::StateID{1}); control.changeTo<A>(); W_P(control.changeWith(ffsm2::StateID{1}, W_PAYLOAD{}); control.changeWith<A>(W_PAYLOAD{});)
-		control.succeed(); control.fail(); control.succeed(ffsm2::StateID{1}); control.fail(ffsm2::StateID{1});
+		control.succeed(); control.fail(); control.succeed(ffsm2::StateID{1}); control.fail(ffsm2::StateID{1}); control.succeed<A>(); control.fail<A>();
 		(void) control.isActive(ffsm2::StateID{1}); (void) control.isActive<A>(); (void) control.stateId(); (void) control.context(); (void) control._(); (void) control.request();
 		(void) control.previousTransitions();
 		auto p = control.plan(); (void) p.change(ffsm2::StateID{0}, ffsm2::StateID{1}); W_P((void) p.changeWith(ffsm2::StateID{0}, ffsm2::StateID{1}, W_PAYLOAD{});) p.clear();
@@ -83,7 +83,7 @@ struct B : FSM::State {
 		const FullControl& cc = control; auto cp = cc.plan(); (void) static_cast<bool>(cp); for (auto it = cp.begin(); it; ++it) (void) it->origin;
 	}
 	void enter(PlanControl& control) { (void) control.currentTransition(); auto p = control.plan(); (void) p.change<A, B>(); }
-	void query(Ev&, ConstControl& control) const { (void) control.isActive(ffsm2::StateID{1}); (void) control.stateId(); (void) control.context(); (void) control._(); (void) control.request(); (void) control.previousTransitions();
+	void query(Ev&, ConstControl& control) const { (void) control.isActive(ffsm2::StateID{1}); (void) control.isActive<A>(); (void) control.stateId(); (void) control.context(); (void) control._(); (void) control.request(); (void) control.previousTransitions();
 		/* ConstControlT::plan() cannot be instantiated: CPlanT's constructor is private and ConstControlT is not a friend */ }
 };
 struct Inj1 : FSM::State { W_ALL_CALLBACKS };
